@@ -40,8 +40,8 @@ theorem withFrames_pinned : Gen.withFrames = [
     ["either(nullcontext(<param>), open(<param>))"])], [], [], []),
   ("read_excel", [("yield from parse_blocks", ["closing(<local>)"])], [], ["read_sheets"], []),
   ("write_excel", [("call write_excel_func", [])], [], [], []),
-  ("read_sheets", [("yield",
-    ["closing(openpyxl.load_workbook(<param>))"])], [], [], []),
+  ("read_sheets", [("yield", ["either(nullcontext(<param>), open(<param>))",
+    "closing(openpyxl.load_workbook(<local>))"])], [], [], []),
   ("write_excel_openpyxl", [("call _append_table_to_openpyxl_worksheet", []), ("call <local>.save", []),
     ("call <local>.write", ["open(<param>)"]), ("call <local>.save", [])], [], [], []),
   ("write_excel_xlsxwriter", [("call _append_table_to_xlsxwriter_worksheet", [])],
@@ -72,7 +72,7 @@ def enclosedByWith (tbl : Table) : Bool :=
   -- it is excluded here and treated separately (`writer_closes_on_failure_partial`, `xlsxwriter_*`).
   tbl.all (fun r => r.name == "write_excel_openpyxl" || r.name == "write_excel_xlsxwriter" || rowEnclosed r) &&
   frameOf tbl "read_csv" == .withs [.openIfPath] &&
-  frameOf tbl "read_sheets" == .withs [.closingWorkbook] &&
+  frameOf tbl "read_sheets" == .withs [.openIfPath, .closingWorkbook] &&
   frameOf tbl "read_excel" == .withs [.closingRows] &&
   frameOf tbl "write_csv" == .withs [.openIfPath] &&
   saveShape tbl == .buffered &&
@@ -91,7 +91,7 @@ instance (tbl : Table) : Decidable (EnclosedByWith tbl) := by unfold EnclosedByW
 theorem source_enclosed : EnclosedByWith Gen.withFrames := by decide
 
 theorem enclosed_shapes {tbl : Table} (h : EnclosedByWith tbl) :
-    frameOf tbl "read_csv" = .withs [.openIfPath] ∧ frameOf tbl "read_sheets" = .withs [.closingWorkbook] ∧
+    frameOf tbl "read_csv" = .withs [.openIfPath] ∧ frameOf tbl "read_sheets" = .withs [.openIfPath, .closingWorkbook] ∧
     frameOf tbl "read_excel" = .withs [.closingRows] ∧ frameOf tbl "write_csv" = .withs [.openIfPath] ∧
     saveShape tbl = .buffered := by
   unfold EnclosedByWith Spec.enclosedByWith at h
@@ -415,7 +415,12 @@ theorem library_handles_closed {t : Trace} (h : WF t) (hs : List Action) (hT : T
 theorem never_closed_twice {t : Trace} (h : WF t) (hs : List Action) : (runAll t hs).bad = [] :=
   (run_inv h hs).bad
 
-/-- **C19, caller streams.**  At no moment of any history has the library closed a stream of the caller. -/
+/-- **C19, caller streams.**  At no moment of any history has the library closed a stream of the caller.
+    Scope of this theorem: it is a statement about well-formed traces.  The API traces are well-formed because
+    `ctxOf` maps a stream source to the `nullcontext` alternative of `either(nullcontext(<param>), open(<param>))`;
+    the frame table does not record the test of that conditional, so *which* alternative the source takes for a
+    stream is not read from the source.  On the real code this clause is therefore decided by the harness (the
+    caller's `stream.closed` after every action, for every stream form), not by this theorem. -/
 theorem caller_stream_untouched {t : Trace} (h : WF t) (hs : List Action) (c : Nat) :
     Handle.caller c ∉ (runAll t hs).closed := by
   intro hm
@@ -964,7 +969,7 @@ theorem readCsv_disciplined {tbl : Table} (he : EnclosedByWith tbl) (src : Src) 
     exact .withNull (.deleg (.plain n))
 
 theorem acqs_readSheets {tbl : Table} (he : EnclosedByWith tbl) (src : Src) (n : Nat) :
-    acqs (readSheets tbl src n) = [.lib src 0] := by
+    ∀ h ∈ acqs (readSheets tbl src n), h = .lib src 0 ∨ h = .lib src 1 := by
   obtain ⟨_, h2, _, _, _⟩ := enclosed_shapes he
   unfold readSheets
   rw [h2]
@@ -975,10 +980,22 @@ theorem readSheets_disciplined {tbl : Table} (he : EnclosedByWith tbl) (src : Sr
   obtain ⟨_, h2, _, _, _⟩ := enclosed_shapes he
   unfold readSheets
   rw [h2]
-  cases src <;> (simp only [applyFrame, List.foldr, ctxOf]; exact .withAcquire _ (.plain n) rfl (by simp [acqs_plain]))
+  have hwb : ∀ h : Handle, h.isLib = true → Disciplined (withC (.acquireLoad h false) (plainBlocks n)) := by
+    intro h hl
+    have : withC (.acquireLoad h false) (plainBlocks n) = [.gap noCleanup] ++ withC (.acquire h) (plainBlocks n) := rfl
+    rw [this]
+    exact .seq .gap (.withAcquire _ (.plain n) hl (by simp [acqs_plain]))
+  cases src with
+  | path f =>
+    simp only [applyFrame, List.foldr, ctxOf]
+    refine .withAcquire _ (hwb _ rfl) rfl ?_
+    simp [withC, acqs, acqs_append, acqs_under, acqs_plain]
+  | stream c =>
+    simp only [applyFrame, List.foldr, ctxOf]
+    exact .withNull (hwb _ rfl)
 
 theorem sheetBodies_spec (src : Src) (mg : Bool) : ∀ (shs : List Sheet) (i : Nat),
-    ∀ b ∈ sheetBodies src mg i shs, Disciplined b ∧ ∀ h ∈ acqs b, ∃ j, h = .lib src (j + 1) := by
+    ∀ b ∈ sheetBodies src mg i shs, Disciplined b ∧ ∀ h ∈ acqs b, ∃ j, h = .lib src (j + 2) := by
   intro shs
   induction shs with
   | nil => intro i b hb; simp [sheetBodies] at hb
@@ -999,7 +1016,8 @@ theorem readExcel_disciplined {tbl : Table} (he : EnclosedByWith tbl) (src : Src
   refine .forHeld _ (readSheets_disciplined he src _) (fun b hb => (sheetBodies_spec src _ shs 0 b hb).1) ?_
   intro b hb h hh
   obtain ⟨j, rfl⟩ := (sheetBodies_spec src _ shs 0 b hb).2 h hh
-  simp [acqs_readSheets he]
+  intro hm
+  rcases acqs_readSheets he src _ _ hm with h' | h' <;> simp at h'
 
 theorem fileRead_disciplined {tbl : Table} (he : EnclosedByWith tbl) (fs : FileSpec) :
     Disciplined (fileRead tbl fs) := by
@@ -1168,7 +1186,7 @@ theorem api_noDeferred {tbl : Table} (he : EnclosedByWith tbl) (a : Api) : noDef
   have hsheets : ∀ src n, noDeferred (Resource.readSheets tbl src n) = true := by
     intro src n
     unfold Resource.readSheets; rw [h2]
-    cases src <;> simp [applyFrame, ctxOf, withC, noDeferred_append, noDeferred_under, noDeferred_plain]
+    cases src <;> simp [applyFrame, ctxOf, withC, noDeferred_append, noDeferred_under, noDeferred_plain, noCleanup]
   have hmg : rowsManaged tbl = true := by simp [rowsManaged, h3]
   have hxl : ∀ src shs, noDeferred (Resource.readExcel tbl src shs) = true := by
     intro src shs
@@ -1334,11 +1352,11 @@ def exLoad : Trace := loadFiles Gen.withFrames
   [(.csv 1 2, [true, false]), (.xlsx 7 [⟨true, 2, 1⟩], [true, true, true]), (.folder, [])]
 
 example : wf exXlsx = true ∧ wf exLoad = true := by decide
-example : fdsOpen (runAll exLoad [.next]) = [1] ∧ fdsOpen (runAll exLoad [.next, .next]) = [7] := by decide
-example : Terminal (runAll exLoad [.next, .next, .close]) ∧ fdsOpen (runAll exLoad [.next, .next, .close]) = [] := by
+example : fdsOpen false (runAll exLoad [.next]) = [1] ∧ fdsOpen false (runAll exLoad [.next, .next]) = [7] := by decide
+example : Terminal (runAll exLoad [.next, .next, .close]) ∧ fdsOpen false (runAll exLoad [.next, .next, .close]) = [] := by
   decide
 example : Terminal (runAll exXlsx [.next, .throwInBlock]) ∧ (runAll exXlsx [.next, .throwInBlock]).closed =
-    [.lib (.path 7) 1, .lib (.path 7) 0] := by decide
+    [.lib (.path 7) 2, .lib (.path 7) 1, .lib (.path 7) 0] := by decide
 example : (runAll (readCsv Gen.withFrames (.stream 3) 2) [.next, .next, .next]).closed = [] := by decide
 example : Terminal (runAll (writeCsv Gen.withFrames (.path 2) 3) [.next, .throwInBlock]) ∧
     (runAll (writeCsv Gen.withFrames (.path 2) 3) [.next, .throwInBlock]).opened = [.lib (.path 2) 0] := by decide
@@ -1383,15 +1401,29 @@ theorem explicit_close_closes_caller_stream : ¬ EnclosedByWith closesStreamTabl
     its sheet the member stream — and with it the descriptor of the workbook — stays open for as long as the
     consumer holds the exception. -/
 def unmanagedRowsTable : Table :=
+  Gen.withFrames.map fun r =>
+    if r.name == "read_excel" then ("read_excel", [("yield from parse_blocks", [])], [], ["read_sheets"], [])
+    else if r.name == "read_sheets" then
+      ("read_sheets", [("yield", ["closing(openpyxl.load_workbook(<param>))"])], [], [], [])   -- as it was then
+    else r
+
+/-- the same rewrite of read_excel on top of the *current* read_sheets (the library opens the file itself, D35) -/
+def unmanagedRowsOnOpenedFileTable : Table :=
   Gen.withFrames.map fun r => if r.name == "read_excel" then
     ("read_excel", [("yield from parse_blocks", [])], [], ["read_sheets"], []) else r
 
 theorem unmanaged_rows_defer :
-    ¬ EnclosedByWith unmanagedRowsTable ∧
+    ¬ EnclosedByWith unmanagedRowsTable ∧ workbookSharesFd unmanagedRowsTable = true ∧
     wf (readExcel unmanagedRowsTable (.path 0) [⟨true, 2, 1⟩]) = true ∧
-    fdsOpen (runAll (readExcel unmanagedRowsTable (.path 0) [⟨true, 2, 1⟩]) [.next, .throwInBlock]) = [0] ∧
-    fdsOpen (runAll (readExcel unmanagedRowsTable (.path 0) [⟨true, 2, 1⟩]) [.next, .throwInBlock, .releaseExc]) = [] ∧
-    fdsOpen (runAll (readExcel unmanagedRowsTable (.path 0) [⟨true, 2, 1⟩]) [.next, .next, .throwInBlock]) = [] := by
+    fdsOpen true (runAll (readExcel unmanagedRowsTable (.path 0) [⟨true, 2, 1⟩]) [.next, .throwInBlock]) = [0] ∧
+    fdsOpen true (runAll (readExcel unmanagedRowsTable (.path 0) [⟨true, 2, 1⟩]) [.next, .throwInBlock, .releaseExc]) = [] ∧
+    fdsOpen true (runAll (readExcel unmanagedRowsTable (.path 0) [⟨true, 2, 1⟩]) [.next, .next, .throwInBlock]) = [] ∧
+    -- on the current read_sheets the descriptor is closed with the error (the file object is in a `with`); what
+    -- still waits for the traceback is the member stream object of the sheet, which holds no descriptor
+    ¬ EnclosedByWith unmanagedRowsOnOpenedFileTable ∧ workbookSharesFd unmanagedRowsOnOpenedFileTable = false ∧
+    fdsOpen false (runAll (readExcel unmanagedRowsOnOpenedFileTable (.path 0) [⟨true, 2, 1⟩]) [.next, .throwInBlock]) = [] ∧
+    (runAll (readExcel unmanagedRowsOnOpenedFileTable (.path 0) [⟨true, 2, 1⟩]) [.next, .throwInBlock]).opn =
+      [.lib (.path 0) 2] := by
   decide
 
 /-- defect D31 (fixed in /repo by 5dca582): write_excel_openpyxl with `wb.save(path)` directly.  openpyxl's
@@ -1406,16 +1438,37 @@ def directSaveTable : Table :=
 theorem unbuffered_save_defers :
     ¬ EnclosedByWith directSaveTable ∧
     wf (writeExcel directSaveTable (.path 0) 2) = true ∧
-    fdsOpen (runAll (writeExcel directSaveTable (.path 0) 2) [.next, .next, .throwInGap 0]) = [0] ∧
-    fdsOpen (runAll (writeExcel directSaveTable (.path 0) 2) [.next, .next, .throwInGap 0, .releaseExc]) = [] ∧
-    fdsOpen (runAll (writeExcel Gen.withFrames (.path 0) 2) [.next, .next, .throwInGap 0]) = [] := by decide
+    fdsOpen false (runAll (writeExcel directSaveTable (.path 0) 2) [.next, .next, .throwInGap 0]) = [0] ∧
+    fdsOpen false (runAll (writeExcel directSaveTable (.path 0) 2) [.next, .next, .throwInGap 0, .releaseExc]) = [] ∧
+    fdsOpen false (runAll (writeExcel Gen.withFrames (.path 0) 2) [.next, .next, .throwInGap 0]) = [] := by decide
+
+/-- defect D35 (fixed in /repo by 0fd2fc9): read_sheets with `closing(openpyxl.load_workbook(path, …))`, openpyxl
+    opening the path itself.  When the file is a zip archive but not a workbook, `load_workbook` raises after it
+    opened the archive: there is nothing yet for `closing` to close, and the descriptor stays with the frames of the
+    traceback for as long as the caller holds the exception.  With the file opened by the library in a `with` of its
+    own (current source) the failed load finds the file in scope and closes it. -/
+def workbookByPathTable : Table :=
+  Gen.withFrames.map fun r => if r.name == "read_sheets" then
+    ("read_sheets", [("yield", ["closing(openpyxl.load_workbook(<param>))"])], [], [], []) else r
+
+theorem workbook_opened_by_path_defers :
+    ¬ EnclosedByWith workbookByPathTable ∧
+    wf (readExcel workbookByPathTable (.path 0) []) = true ∧
+    fdsOpen true (runAll (readExcel workbookByPathTable (.path 0) []) [.throwInGap 0]) = [0] ∧
+    fdsOpen true (runAll (readExcel workbookByPathTable (.path 0) []) [.throwInGap 0, .releaseExc]) = [] ∧
+    (runAll (readExcel Gen.withFrames (.path 0) []) [.throwInGap 0]).pc = .done ∧
+    (runAll (readExcel Gen.withFrames (.path 0) []) [.throwInGap 0]).opn = [] ∧
+    (runAll (readExcel Gen.withFrames (.path 0) []) [.throwInGap 0]).closed = [.lib (.path 0) 0] ∧
+    -- through load_files: one block of the including file, then the include that is not a workbook
+    fdsOpen false (runAll (loadFiles Gen.withFrames [(.csv 1 1, [true]), (.xlsx 2 [], [])])
+      [.next, .throwInGap 1]) = [] := by decide
 
 /-- load_files: a failure between two files (missing / duplicate / unsupported include, LoadError) finds nothing
     open, also when files without any block lie in between (`throwInGap 1` skips the gap before such a file) -/
 example :
     let t := loadFiles Gen.withFrames
       [(.csv 1 2, [true, true]), (.xlsx 2 [⟨false, 0, 0⟩], []), (.folder, []), (.csv 3 1, [true])]
-    fdsOpen (runAll t [.next, .next]) = [1] ∧
+    fdsOpen false (runAll t [.next, .next]) = [1] ∧
     (runAll t [.next, .next, .throwInGap 1]).pc = .done ∧ (runAll t [.next, .next, .throwInGap 1]).opn = [] ∧
     (runAll t [.next, .next, .throwInGap 1]).opened = [.lib (.path 1) 0, .lib (.path 2) 0] ∧
     (runAll t [.throwInGap 0]).opened = [] ∧
